@@ -42,6 +42,7 @@ type OViol struct {
 
 // Scenario is a closed concurrent program: a deterministic builder of instances.
 type Scenario struct {
+	Seq            *SeqSpec // non-nil: an E2 (sequence search) job instead of a schedule exploration
 	Classes        int // oracle classes that decide the property this scenario is run for
 	ExpectOutcomes int // vacuity guard: at least this many distinct outcomes are expected
 	Name     string
@@ -64,6 +65,7 @@ type Violation struct {
 	Choices  []uint8  `json:"choices"`
 	History  []string `json:"history,omitempty"`
 	Schedule []string `json:"schedule,omitempty"`
+	Events   []int    `json:"events,omitempty"` // E2: the event sequence
 }
 
 type ExploreStats struct {
@@ -86,6 +88,7 @@ type ExploreStats struct {
 	SampleHist   []string       `json:"sample_history,omitempty"`
 	ThreadSteps  []int          `json:"thread_steps,omitempty"`
 	Deterministic bool          `json:"determinism_checked"`
+	OutcomeCount    int         `json:"outcome_count,omitempty"`
 	Fallback        string      `json:"fallback,omitempty"`
 	UnboundedStates int         `json:"unbounded_states_before_fallback,omitempty"`
 	OtherObs      int           `json:"observations_for_other_properties"` // oracle classes that belong to other properties failed (not counted here)
